@@ -104,12 +104,28 @@ def block_level(repo: Repo, chk: Check) -> None:
         raise AnalysisError(f"{f.where}: no mutation site found")
 
     def two_users(site: Site):
+        """today's contract: exactly two using ops.  A generalisation to several launches is accepted only if every other
+        user is known to be a launch AND the launch the setup goes behind is selected by position in the block (not by
+        the order of the use list, which rewrites permute)"""
         for fact in site.facts:
             if fact.kind != "atom":
                 continue
             m = norm.any_match(["len($u) == 2"], fact.expr)
             if m is not None and depends_on(m["u"], "$op.in_state.uses", binds={"op": op}):
                 return fact
+        call = site.node
+        tgt = None
+        if isinstance(call, ast.Call):
+            for a in (*call.args, *[k.value for k in call.keywords]):
+                for _, m in subexprs(a, "InsertPoint.after($l)"):
+                    tgt = m["l"]
+        if tgt is not None:
+            cone = fl.cone(tgt, site, inline=0)
+            by_position = any(isinstance(n, ast.Call) and callee_name(n) in ("get_operation_index", "index", "is_before_in_block", "max", "sorted") for n in ast.walk(cone)) and not any(
+                isinstance(n, ast.Subscript) and isinstance(n.slice, ast.Constant) and isinstance(norm.primary(n.value), ast.ListComp) for n in ast.walk(cone))
+            for fact in site.facts:
+                if fact.kind == "forall" and "LaunchOp" in fact.text and by_position:
+                    return fact
         return None
 
     def launch_alt(site: Site) -> bool:
@@ -167,7 +183,14 @@ def block_level(repo: Repo, chk: Check) -> None:
 
 
 def uses_helper(repo: Repo, chk: Check) -> None:
-    f, fl = flow_of(repo, chk, OVERLAP, "get_ops_from_uses")
+    f = repo.try_func(OVERLAP, "get_ops_from_uses")
+    if f is None:
+        # the helper is an implementation detail: without it the user count is judged where it is used (C06.block-guards / loop-guards)
+        chk.rule("C06.uses", "get_ops_from_uses returns the operation of *every* use (no filtering by block or kind)", floor=0)
+        chk.observe("get_ops_from_uses does not exist on this tree: C06.uses has no instance")
+        return
+    chk.analysed(f.key)
+    fl = Flow(f, repo)
     chk.rule("C06.uses", "get_ops_from_uses returns the operation of *every* use (no filtering by block or kind)", floor=1)
     p = f.param(0)
     for s in fl.stmts(ast.Return):
